@@ -47,10 +47,12 @@ def CONCATENATE(*args):
     def test_arg(arg):
         if isinstance(arg, error.XLError):
             raise arg
+        if arg is None:
+            return ''  # a blank joins as nothing
         return arg
 
     try:
-        return ''.join((str(a) if not isinstance(test_arg(a), string_types) else a for a in utils.iflatten(args)))
+        return ''.join((str(a) if not isinstance(a, string_types) else a for a in map(test_arg, utils.iflatten(args))))
     except XLError as xle:
         return xle
 
